@@ -31,6 +31,7 @@ type Res struct {
 	Why    string // reason code of the first error (stable, used in violation signatures)
 	Unspec bool
 	UWhy   string
+	Hard   bool // unspecified because an unknown value is involved: dominates errors of sibling operands
 	ErrOK  bool
 }
 
@@ -44,6 +45,13 @@ func (r Res) withErrOK(b bool) Res { r.ErrOK = r.ErrOK || b; return r }
 // reported": an error in any operand is an error of the whole; otherwise an
 // unspecified operand makes the whole unspecified.
 func merge(rs ...Res) (Res, bool) {
+	for _, r := range rs {
+		if r.Unspec && r.Hard {
+			// an unknown operand: implementations may defer everything (try/can do), so
+			// not even the error of a sibling operand is prescribed
+			return r, true
+		}
+	}
 	for _, r := range rs {
 		if r.Err {
 			return errR(r.Why), true
@@ -316,6 +324,9 @@ func (e *Ev) eval(n *Node, sc *Scope) Res {
 		if !ok {
 			return errR("undefined-variable")
 		}
+		if !v.IsWhollyKnown() {
+			return Res{Unspec: true, UWhy: "unknown-value", Hard: true}
+		}
 		return okR(v)
 	case KIt:
 		if len(e.its) == 0 {
@@ -517,6 +528,11 @@ func (e *Ev) evalCond(n *Node, sc *Scope) Res {
 	c := e.eval(n.A, sc)
 	t := e.eval(n.B2, sc)
 	f := e.eval(n.C, sc)
+	for _, r := range []Res{c, t, f} {
+		if r.Unspec && r.Hard {
+			return r
+		}
+	}
 	if c.Err {
 		// the predicate's own error is always reported
 		return errR(c.Why)
@@ -697,9 +713,12 @@ func (e *Ev) evalSplat(n *Node, sc *Scope) Res {
 	isSeq := sty.IsTupleType() || sty.IsListType() || sty.IsSetType()
 	if sv.IsNull() {
 		if !isSeq {
+			// (objects and MAPS are single values for a splat, like primitives)
 			return okR(cty.EmptyTupleVal).withErrOK(src.ErrOK)
 		}
-		return errR("splat:null-sequence")
+		// a null list/set/tuple: the fork reports an error; the documents only say
+		// "null gives an empty tuple" for the auto-wrapped case
+		return unspecR("splat:null-sequence")
 	}
 	if sty.IsSetType() {
 		return unspecR("splat:set")
@@ -749,6 +768,14 @@ type kv struct {
 func elements(v cty.Value) ([]kv, bool) {
 	ty := v.Type()
 	switch {
+	case ty.IsSetType():
+		// the key of a set element is the element itself; the order is not defined
+		// (callers refuse order-sensitive results for more than one element)
+		var out []kv
+		for _, x := range v.AsValueSlice() {
+			out = append(out, kv{x, x})
+		}
+		return out, true
 	case ty.IsTupleType() || ty.IsListType():
 		var out []kv
 		for i, x := range v.AsValueSlice() {
@@ -779,12 +806,12 @@ func (e *Ev) evalFor(n *Node, sc *Scope) Res {
 	if coll.V.IsNull() {
 		return errR("for:null-collection")
 	}
-	if coll.V.Type().IsSetType() {
-		return unspecR("for:set")
-	}
 	els, ok := elements(coll.V)
 	if !ok {
 		return errR("for:not-iterable")
+	}
+	if coll.V.Type().IsSetType() && len(els) > 1 && (n.Key == nil || n.Group) {
+		return unspecR("for:set-order")
 	}
 	eo := coll.ErrOK
 	if len(els) == 0 && n.C != nil {
@@ -891,7 +918,13 @@ func (e *Ev) evalCall(n *Node, sc *Scope) Res {
 			return errR("try:no-arguments")
 		}
 		for _, k := range n.Kids {
+			if e.mentionsUnknown(k, sc) {
+				return Res{Unspec: true, UWhy: "try:argument-mentions-unknown", Hard: true}
+			}
 			r := e.eval(k, sc)
+			if r.Unspec && r.Hard {
+				return r
+			}
 			if r.Unspec || r.ErrOK {
 				return unspecR("try:argument-not-pinned-down")
 			}
@@ -908,7 +941,13 @@ func (e *Ev) evalCall(n *Node, sc *Scope) Res {
 		if len(n.Kids) != 1 {
 			return errR("call:wrong-argument-count")
 		}
+		if e.mentionsUnknown(n.Kids[0], sc) {
+			return Res{Unspec: true, UWhy: "can:argument-mentions-unknown", Hard: true}
+		}
 		r := e.eval(n.Kids[0], sc)
+		if r.Unspec && r.Hard {
+			return r
+		}
 		if r.Unspec || r.ErrOK {
 			return unspecR("can:argument-not-pinned-down")
 		}
@@ -921,6 +960,11 @@ func (e *Ev) evalCall(n *Node, sc *Scope) Res {
 	rs := make([]Res, len(n.Kids))
 	for i, k := range n.Kids {
 		rs[i] = e.eval(k, sc)
+	}
+	for _, r := range rs {
+		if r.Unspec && r.Hard {
+			return r
+		}
 	}
 	var args []cty.Value
 	if n.Expand {
@@ -994,6 +1038,21 @@ func (e *Ev) evalCall(n *Node, sc *Scope) Res {
 		return errR("call:body:" + r.Why)
 	}
 	return r.withErrOK(anyErrOK(rs...))
+}
+
+// mentionsUnknown: the subtree names (anywhere, evaluated or not) a variable whose
+// value is not wholly known.  try/can decide on the SYNTACTIC references of their
+// argument whether to defer, so this is what makes their result unknown.
+func (e *Ev) mentionsUnknown(n *Node, sc *Scope) bool {
+	found := false
+	Walk(n, func(m *Node) {
+		if m.K == KVar {
+			if v, ok := sc.lookup(m.Name); ok && !v.IsWhollyKnown() {
+				found = true
+			}
+		}
+	})
+	return found
 }
 
 // ---------------------------------------------------------------- templates
@@ -1167,13 +1226,13 @@ func (e *Ev) evalParts(ws []*wpart, sc *Scope) Res {
 				rs = append(rs, errR("template-for:null-collection"))
 				continue
 			}
-			if cr.V.Type().IsSetType() {
-				rs = append(rs, unspecR("template-for:set"))
-				continue
-			}
 			els, ok := elements(cr.V)
 			if !ok {
 				rs = append(rs, errR("template-for:not-iterable"))
+				continue
+			}
+			if cr.V.Type().IsSetType() && len(els) > 1 {
+				rs = append(rs, unspecR("template-for:set-order"))
 				continue
 			}
 			if w.p.KeyVar != "" && w.p.KeyVar == w.p.ValVar {
